@@ -4,6 +4,7 @@ import Pycoin.Spec.Wire
 import Pycoin.Proofs.Prefix
 import Pycoin.Proofs.TxWire
 import Pycoin.Proofs.TxParse
+import Pycoin.Proofs.History
 /-!
 C07 — Transactions round-trip through the wire format and have stable ids.
 Property theorems over `Model/Tx.lean` / `Model/Spendable.lean`, with `Spec/Wire.lean` as the wire format.
@@ -472,6 +473,33 @@ theorem C07_spendable_text_rt (s : Spendable) (hd : s.doesSeemSpent = 0 ∨ s.do
   cases s
   simp only at this ⊢
   rw [this]
+
+/-! ## histories on one object -/
+
+/-- C07.ids_after_mutation: after ANY history of observers and in-place mutators on one transaction object, `id`,
+`hash`, `w_id`, `w_hash`, `blanked_hash`, `as_bin`, `as_hex` answer what the stateless functions give on the fields
+as they are at that moment — i.e. what a fresh object built from the current fields answers.  (The model has no
+cache; the harness holds the implementation to the same.) -/
+theorem C07_ids_after_mutation (c : Coin) (st : History.St) (hist : List History.Step) :
+    History.run c st (hist ++ [.obs .id]) = History.run c st hist ++ [.chars (Tx.id c (History.after c st hist).tx)] ∧
+    History.run c st (hist ++ [.obs .hash]) = History.run c st hist ++ [.bytes (Tx.hash c (History.after c st hist).tx)] ∧
+    History.run c st (hist ++ [.obs .wId]) = History.run c st hist ++ [.chars (Tx.wId c (History.after c st hist).tx)] ∧
+    History.run c st (hist ++ [.obs .wHash]) = History.run c st hist ++ [.bytes (Tx.wHash c (History.after c st hist).tx)] ∧
+    History.run c st (hist ++ [.obs .blankedHash]) =
+      History.run c st hist ++ [.bytes (Tx.blankedHash c (History.after c st hist).tx)] ∧
+    History.run c st (hist ++ [.obs .asBin]) = History.run c st hist ++ [.bytes (History.after c st hist).tx.asBin] ∧
+    History.run c st (hist ++ [.obs .asHex]) = History.run c st hist ++ [.chars (History.after c st hist).tx.asHex] :=
+  ⟨History.run_append_obs c _ hist st, History.run_append_obs c _ hist st, History.run_append_obs c _ hist st,
+   History.run_append_obs c _ hist st, History.run_append_obs c _ hist st, History.run_append_obs c _ hist st,
+   History.run_append_obs c _ hist st⟩
+
+/-- … and for in-range fields the witness id after a history is the digest of the wire form of the current fields -/
+theorem C07_wid_after_mutation (c : Coin) (st : History.St) (hist : List History.Step)
+    (hwf : (History.after c st hist).tx.WF) :
+    History.run c st (hist ++ [.obs .wHash]) =
+      History.run c st hist ++ [.bytes (.ok (Tx.idDigest c (Spec.Wire.ser (History.after c st hist).tx)))] := by
+  rw [History.run_append_obs]
+  simp [History.observe, Tx.wHash, asBin_eq_stream, C07_ser_is_wire _ hwf, Except.map]
 
 /-! ## non-vacuity -/
 
